@@ -1,13 +1,18 @@
 package check
 
 import (
+	"encoding/json"
+	"flag"
 	"fmt"
 	"os"
+	"sort"
 	"strconv"
+	"strings"
 	"testing"
 
 	"go.flow.arcalot.io/engine/zverif/harness"
 	"go.flow.arcalot.io/engine/zverif/simrt"
+	"pgregory.net/rapid"
 )
 
 func smokeSpec(seed int64) harness.Spec {
@@ -45,5 +50,61 @@ func TestDeterminismPrint(t *testing.T) {
 		for h := range hashes {
 			fmt.Printf("DET seed=%d hash=%s outcome=%s id=%s errclass=%s decisions=%d\n", seed, h, last.Outcome, last.Clients[0].OutputID, last.Clients[0].ErrClass, last.Stats.Decisions)
 		}
+	}
+}
+
+// TestDeterminismCases prints one line per generated case - DET_CASES cases of every property from a fixed
+// generator seed - with the hash of the full result (events, journal, client results, panics) and, for
+// body-driven cases, of what the oracle returns. Each case runs twice in this process; the driver runs
+// the test in several processes at several GOMAXPROCS values and compares the output. This is the
+// self-test over the whole workload space (loops, provider histories, preparations, the engine API,
+// every policy), where TestDeterminismPrint covers one program.
+func TestDeterminismCases(t *testing.T) {
+	n, _ := strconv.Atoi(os.Getenv("DET_CASES"))
+	if n == 0 {
+		t.Skip("DET_CASES not set")
+	}
+	LoadSites(os.Getenv("VERIF_SITES"))
+	_ = flag.Set("rapid.nofailfile", "true")
+	_ = flag.Set("rapid.checks", strconv.Itoa(n))
+	var ids []string
+	for id := range Props {
+		ids = append(ids, id)
+	}
+	sort.Strings(ids)
+	for k, id := range ids {
+		def := Props[id]
+		_ = flag.Set("rapid.seed", strconv.Itoa(1000+k))
+		i := 0
+		tb := &fakeTB{}
+		rapid.Check(tb, func(rt *rapid.T) {
+			c := def.Gen(rt)
+			i++
+			h := map[string]int{}
+			var vs []Violation
+			for rep := 0; rep < 2; rep++ {
+				r := RunCase(t, c, true)
+				vs = def.Check(c, r)
+				var rules []string
+				for _, v := range vs {
+					rules = append(rules, v.Rule+"/"+v.Shape)
+				}
+				sort.Strings(rules)
+				h[hashResult(r)+" "+strings.Join(rules, ",")]++
+			}
+			for key, cnt := range h {
+				fmt.Printf("DETC prop=%s i=%d reps=%d %s\n", id, i, cnt, key)
+			}
+			if len(h) > 1 && os.Getenv("DET_DEBUG") != "" {
+				for rep := 0; rep < 2; rep++ {
+					r := RunCase(t, c, true)
+					b, _ := json.Marshal(struct {
+						C any
+						E any
+					}{r.Clients, r.Events})
+					_ = os.WriteFile(fmt.Sprintf("/tmp/detdebug.%s.%d.%d.json", id, i, rep), b, 0o644)
+				}
+			}
+		})
 	}
 }
